@@ -4,10 +4,11 @@ package main
 // R-MERGESHAPE, R-NOPRUNE, R-ARRAYS, R-PATCHWINS, R-CMPSHAPE.
 
 import (
-	"sort"
-	"go/token"
 	"fmt"
+	"go/constant"
+	"go/token"
 	"go/types"
+	"sort"
 	"strings"
 
 	"golang.org/x/tools/go/ssa"
@@ -590,6 +591,7 @@ func ruleNoPrune(c *Ctx) {
 			l.add("R-NOPRUNE", b.Name, "anchor", "", Undecided, "mergeDocs/pruneNulls/merge not found", false)
 			continue
 		}
+		b.pruneWalk(l, mf)
 		fn := mf.mergeDocs
 		flag := boolParam(fn)
 		ml := b.findMemberLoop(fn)
@@ -995,34 +997,65 @@ func ruleCmpShape(c *Ctx) {
 		{
 			key := "createArrayMergePatch: unequal lengths are rejected before the pairwise walk"
 			ok := false
+			// the two decoded slices: locals filled by the decodes
+			lenOfLocal := func(v ssa.Value) (ssa.Value, bool) {
+				for d := 0; d < 4; d++ {
+					call, isC := v.(*ssa.Call)
+					if !isC {
+						return nil, false
+					}
+					bi, isB := call.Call.Value.(*ssa.Builtin)
+					if !isB || bi.Name() != "len" {
+						return nil, false
+					}
+					arg := call.Call.Args[0]
+					if u, isU := arg.(*ssa.UnOp); isU {
+						return u.X, true
+					}
+					return arg, true
+				}
+				return nil, false
+			}
+			why := "no comparison len(original) != len(modified) whose unequal edge returns an error and whose equal edge dominates every accepting return: a test made inside the loop, or in one direction only (i >= len(modified)), lets a longer modified array through with its surplus elements ignored"
 			for _, bb := range ca.Blocks {
-				iff, isIf := bb.Instrs[len(bb.Instrs)-1].(*ssa.If)
+				iff, isIf := lastInstr(bb).(*ssa.If)
 				if !isIf {
 					continue
 				}
 				bo, isBo := iff.Cond.(*ssa.BinOp)
-				if !isBo {
+				if !isBo || (bo.Op != token.NEQ && bo.Op != token.EQL) {
 					continue
 				}
-				isLen := func(v ssa.Value) bool {
-					call, ok := v.(*ssa.Call)
-					if !ok {
-						return false
-					}
-					bi, ok := call.Call.Value.(*ssa.Builtin)
-					return ok && bi.Name() == "len"
+				lx, okx := lenOfLocal(bo.X)
+				ly, oky := lenOfLocal(bo.Y)
+				if !okx || !oky || lx == ly {
+					continue
 				}
-				if isLen(bo.X) || isLen(bo.Y) {
-					for si := range bb.Succs {
-						if b.rejects(bb.Succs[si]) {
-							ok = true
-						}
+				uneq := 0
+				if bo.Op == token.EQL {
+					uneq = 1
+				}
+				if !b.rejects(bb.Succs[uneq]) {
+					continue
+				}
+				all := true
+				for _, r := range liveReturns(ca) {
+					ei := errResultIndex(ca)
+					if ei >= 0 && b.definitelyNonNilErr(retVal(r, ei), r.Block(), 0) {
+						continue
 					}
+					if !edgeDominates(bb, 1-uneq, r.Block()) {
+						all = false
+					}
+				}
+				if all {
+					ok = true
+					why = "len(a) != len(b) at " + b.posOf(iff) + " rejects, and its equal edge dominates every accepting return"
 				}
 			}
-			v, why := Discharged, "a length comparison whose one edge returns an error precedes the loop"
+			v := Discharged
 			if !ok {
-				v, why = Violated, "no length comparison that rejects: arrays of different lengths are walked pairwise (index out of range) or silently truncated"
+				v = Violated
 			}
 			l.add("R-CMPSHAPE", b.Name, key, b.rel(ca.Pos()), v, why, true)
 		}
@@ -1377,7 +1410,6 @@ func ruleCmpShape(c *Ctx) {
 	}
 }
 
-
 func (b *Body) diffStoreCensus(l *Ledger, gd *ssa.Function) {
 	pa, pb := ssa.Value(gd.Params[0]), ssa.Value(gd.Params[1])
 	// the result map: the map value returned on success
@@ -1665,6 +1697,11 @@ func (b *Body) matchPairing(l *Ledger) {
 	}
 	for fn := range fns {
 		n := 0
+		type sizeTest struct {
+			eqSucc int
+			x, y   ssa.Value
+		}
+		sizeTests := map[*ssa.BasicBlock]sizeTest{}
 		lenCheck := func(at *ssa.BasicBlock, x, y ssa.Value) bool {
 			for _, bb := range fn.Blocks {
 				iff, ok := bb.Instrs[len(bb.Instrs)-1].(*ssa.If)
@@ -1688,6 +1725,7 @@ func (b *Body) matchPairing(l *Ledger) {
 					diff = 1
 				}
 				if returnsConst(bb.Succs[diff], false) && edgeDominates(bb, 1-diff, at) {
+					sizeTests[bb] = sizeTest{1 - diff, lx, ly}
 					return true
 				}
 			}
@@ -1822,6 +1860,49 @@ func (b *Body) matchPairing(l *Ledger) {
 				l.add("R-CMPSHAPE", b.Name, key, b.posOf(call), Discharged, form+" pairing; size compared; false is final", true)
 			}
 		}
+		// every answer that can be true lies behind the size comparison: in the part of the
+		// function where the two containers are known (the blocks dominated by the definitions of
+		// both), a return that is not the constant false must be dominated by the equal edge of
+		// the size comparison (an early answer for empty or nil containers makes [] match [1])
+		{
+			var tbs []*ssa.BasicBlock
+			for tb := range sizeTests {
+				tbs = append(tbs, tb)
+			}
+			sort.Slice(tbs, func(i, j int) bool { return tbs[i].Index < tbs[j].Index })
+			for k, tb := range tbs {
+				st := sizeTests[tb]
+				key := fmt.Sprintf("%s: size comparison #%d: no answer other than false is given for the two containers before their sizes are compared", b.canonFname(fn), k+1)
+				defBlk := func(v ssa.Value) *ssa.BasicBlock {
+					if i, ok := v.(ssa.Instruction); ok {
+						return i.Block()
+					}
+					return fn.Blocks[0]
+				}
+				dx, dy := defBlk(st.x), defBlk(st.y)
+				region := dx
+				if dx.Dominates(dy) {
+					region = dy
+				}
+				bad := ""
+				for _, r := range returnsOf(fn) {
+					if !region.Dominates(r.Block()) || len(r.Results) == 0 {
+						continue
+					}
+					if c, ok := r.Results[0].(*ssa.Const); ok && c.Value != nil && c.Value.Kind() == constant.Bool && !constant.BoolVal(c.Value) {
+						continue
+					}
+					if !edgeDominates(tb, st.eqSucc, r.Block()) {
+						bad = "the return at " + b.posOf(r) + " can answer true for the two containers without their sizes having been found equal (and their elements compared): an empty container would match a non-empty one"
+					}
+				}
+				if bad != "" {
+					l.add("R-CMPSHAPE", b.Name, key, b.posOf(lastInstr(tb)), Violated, bad, true)
+				} else {
+					l.add("R-CMPSHAPE", b.Name, key, b.posOf(lastInstr(tb)), Discharged, "every return in the region where both containers are known is the constant false or lies behind the equal-size edge", true)
+				}
+			}
+		}
 		// no other comparer: the two operands never meet in a function of the library other than
 		// these comparers themselves (a tolerance, a normalising comparison, ... would make
 		// different values "equal" and drop the member from the patch)
@@ -1889,12 +1970,10 @@ func (b *Body) matchPairing(l *Ledger) {
 	}
 }
 
-
 func isLookupExtract(e *ssa.Extract) bool {
 	_, ok := e.Tuple.(*ssa.Lookup)
 	return ok
 }
-
 
 func isRangeValue(e *ssa.Extract) bool {
 	_, ok := e.Tuple.(*ssa.Next)
